@@ -87,7 +87,8 @@ package internal
 //@   uses weeksec(lsecIn(t1, r.loc))
 //@   uses weeksec(lsecIn(t2, r.loc))
 //@   ensures @nil r == nil ==> result
-//@   ensures @same r != nil ==> (result <==> samewin(r, lsecIn(t1, r.loc), lsecIn(t2, r.loc)))
+//@   ensures @samedaily r != nil && r.startDay == nil ==> (result <==> samedaily(r, lsecIn(t1, r.loc), lsecIn(t2, r.loc)))
+//@   ensures @sameweekly r != nil && r.startDay != nil ==> (result <==> sameweekly(r, lsecIn(t1, r.loc), lsecIn(t2, r.loc)))
 
 // constructors establish the well-formedness the classification functions rely on
 //@ func ParseTimeOfDay [C18]
